@@ -179,6 +179,13 @@ class Script:
             for o in self.observers[:]:
                 o.on_next(value)
 
+    def end(self, kind, payload=None):
+        """feedback: somebody terminates this (hot) source, now (on_error / on_completed); nothing follows a terminal"""
+        if not self.ended:
+            self.ended = True
+            for o in self.observers[:]:
+                self._send(o, (None, kind, payload))
+
     @staticmethod
     def _send(o, ev):
         if ev[1] == "N":
@@ -190,6 +197,8 @@ class Script:
 
     def _hot_action(self, ev):
         def action(_s, _st=None):
+            if self.ended:
+                return           # terminated from outside (end): the rest of the script is void
             if ev[1] != "N":
                 self.ended = True
             for o in self.observers[:]:
@@ -198,6 +207,8 @@ class Script:
 
     def _chain_action(self, k):
         def action(_s, _st=None):
+            if self.ended:
+                return
             nxt = k + 1 < len(self.events)
             if nxt and self.mode == "hot_pre":
                 self.s.schedule_absolute(self.clk.A(self.events[k + 1][0]), self._chain_action(k + 1))
@@ -246,11 +257,45 @@ class Script:
         return Disposable(undo)
 
 
-def spec_observable(s, clk: Clock, sp: Dict[str, Any], mode: str = "cold", falsy_err: bool = False):
+SYNC_FLAVOURS = ("behavior", "inline", "of_immediate", "replay")
+
+
+class SyncFire:
+    """per-element observable for spec kind S: it fires synchronously, inside the subscribe call made on it (no scheduler
+    hop whatever scheduler is passed along).  Flavours: a BehaviorSubject, an observable whose subscribe function calls the
+    observer in line (two elements and a completion: only the FIRST notification may count), of() on the immediate
+    scheduler, a ReplaySubject holding one element."""
+
+    def __init__(self, flavour: str):
+        import reactivex
+        from reactivex.scheduler import ImmediateScheduler
+        from reactivex.subject import BehaviorSubject, ReplaySubject
+        if flavour == "behavior":
+            self.obs = BehaviorSubject(0)
+        elif flavour == "inline":
+            def sub(observer, scheduler=None):
+                from reactivex.disposable import Disposable
+                observer.on_next("tick")
+                observer.on_next("tock")
+                observer.on_completed()
+                return Disposable()
+            self.obs = reactivex.Observable(sub)
+        elif flavour == "of_immediate":
+            self.obs = reactivex.from_iterable(["tick", "tock"], scheduler=ImmediateScheduler())
+        else:
+            r = ReplaySubject()
+            r.on_next(None)
+            self.obs = r
+
+
+def spec_observable(s, clk: Clock, sp: Dict[str, Any], mode: str = "cold", falsy_err: bool = False, sync: str = "behavior"):
     """per-element observable for spec [k, t]: first notification of kind k at offset t.
-    N: a second element and a completion follow (only the FIRST notification may count)."""
+    N: a second element and a completion follow (only the FIRST notification may count).
+    S: fires inside subscribe (SyncFire)."""
     t = clk.S * sp["t"]
     k = sp["k"]
+    if k == "S":
+        return SyncFire(sync)
     if k == "N":
         ev = [(t, "N", "tick"), (t + clk.S, "N", "tock"), (t + 2 * clk.S, "C", None)]
     elif k == "C":
@@ -287,7 +332,8 @@ def build_operator(scn, s, clk: Clock, V, cfg, made):
                 if same(v, x) and pos < len(table):
                     if table[pos]["k"] == "X":
                         raise make_err(FnErr, "mapper failed", cfg.get("errprofile") == "falsy")
-                    sc = spec_observable(s, clk, table[pos], cfg.get("specmode", "cold"), cfg.get("errprofile") == "falsy")
+                    sc = spec_observable(s, clk, table[pos], cfg.get("specmode", "cold"), cfg.get("errprofile") == "falsy",
+                                         SYNC_FLAVOURS[(cfg.get("syncflavour", 0) + pos) % len(SYNC_FLAVOURS)])
                     made.setdefault(tag, []).append((pos + 1, sc))
                     return sc.obs
             raise AssertionError(f"mapper called with a value the source never emitted: {x!r}")
@@ -432,7 +478,12 @@ def run_scenario(scn: Dict[str, Any], cfg: Dict[str, Any]) -> Dict[str, Any]:
             r.append((clk.secs(s) - shift, "N", v))
             if fbk and key == "d" and sum(1 for x in r if x[1] == "N") == fbk:
                 # feedback: the consumer, inside this very on_next, feeds one more element into the source it consumes
-                sc.push(V["src"][len(scn["src"])])
+                fbx = scn.get("fbx", "N")
+                if fbx == "N":
+                    sc.push(V["src"][len(scn["src"])])
+                else:
+                    # ... or terminates it
+                    sc.end(fbx, V["src_err"] if fbx == "E" else None)
 
         def subscribe(_s=None, _st=None):
             kw = {"scheduler": s} if cfg.get("subsched", True) else {}
@@ -696,7 +747,7 @@ def variants(scn, hz, tier, seed=0, clocks=("test", "hist")) -> List[Dict[str, A
                "schedarg": g % 4 == 1, "subsched": True, "profile": ("plain", "falsy")[(g // 2) % 2], "salt": g % 6,
                "auxmode": ("hot", "cold", "hot_chain", "cold_chain")[g % 4], "auxfirst": (g // 4) % 2 == 1,
                "specmode": ("cold", "cold_chain")[(g // 3) % 2], "fbmode": ("cold", "cold_chain")[(g // 5) % 2],
-               "alias": g % 5 == 0, "errprofile": ("plain", "falsy")[(g // 7) % 2]}
+               "alias": g % 5 == 0, "errprofile": ("plain", "falsy")[(g // 7) % 2], "syncflavour": g % 4}
         out.append(cfg)
     if "hist" in clocks:
         # the datetime clock: one script mode per scenario (two different ones in the thorough tier)
@@ -707,7 +758,7 @@ def variants(scn, hz, tier, seed=0, clocks=("test", "hist")) -> List[Dict[str, A
                         "schedarg": g % 4 == 2, "subsched": True, "profile": ("falsy", "plain")[(g // 2) % 2], "salt": g % 6,
                         "auxmode": ("cold", "hot", "cold_chain", "hot_chain")[g % 4], "auxfirst": (g // 4) % 2 == 0,
                         "specmode": ("cold", "cold_chain")[(g // 3) % 2], "fbmode": "cold", "alias": False,
-                        "errprofile": ("falsy", "plain")[(g // 7) % 2]})
+                        "errprofile": ("falsy", "plain")[(g // 7) % 2], "syncflavour": (g // 2) % 4})
     # two subscribers of the same pipeline
     if (tier == "thorough" or h % 4 == 0) and not scn.get("fbk"):
         g = h // 4
